@@ -1,8 +1,8 @@
 (* C17 — lemmas behind the property theorems.  The lexer, parser and merge/totality developments live in
    C17_ProofsLex.v, C17_ProofsParse.v and C17_ProofsMerge.v; this file assembles the statements used by
    C17_Props.v. *)
-From Coq Require Import List NArith Bool Lia Relations String Ascii.
-From Dae Require Import C17_Spec C17_Model C17_Toks C17_MergeSpec C17_ProofsLex C17_ProofsParse C17_ProofsMerge C17_ProofsNoCrash.
+From Coq Require Import List NArith Bool Lia Relations String Ascii PeanoNat.
+From Dae Require Import C17_Spec C17_Model C17_Toks C17_MergeSpec C17_ProofsLex C17_ProofsParse C17_ProofsMerge C17_ProofsNoCrash C17_Paths C17_ProofsPaths.
 From Dae.gen Require Import Extracted_C17.
 Import ListNotations.
 Open Scope N_scope.
@@ -65,6 +65,22 @@ Proof.
   rewrite orb_false_r. apply N.leb_gt.
   specialize (H d (or_introl eq_refl)). lia.
 Qed.
+
+(* containment is by components: the cleaned entry directory's component list is a prefix of the file's
+   directory's component list *)
+Lemma C17_inside_component_boundary_proof :
+  forall d f, inside d f = true -> firstn (List.length (clean d)) (dir_of (clean f)) = clean d.
+Proof.
+  intros d f H. destruct (inside_is_below d f H) as [below E]. rewrite E.
+  rewrite firstn_app, Nat.sub_diag, firstn_all. cbn [firstn]. apply app_nil_r.
+Qed.
+
+(* ... a string prefix is not enough: /x/dae.d extends the text of /x/dae and is not inside it *)
+Lemma C17_string_prefix_not_enough_proof :
+  let d := comps (Bs "/x/dae") in
+  let f := comps (Bs "/x/dae.d/a.dae") in
+  firstn (List.length (render d)) (render (dir_of f)) = render d /\ inside d f = false.
+Proof. split; vm_compute; reflexivity. Qed.
 
 (* a tree that uses every production *)
 Definition C17_sample_config : sconfig :=
